@@ -65,17 +65,20 @@ theorem tickerBurn_noNonce (s : State) (t : TxIn) (burn : List Move) (tg : List 
     (h : tickerBurn s t = .ok (burn, tg)) : burn.any Move.isSetNonce = false := by
   unfold tickerBurn at h
   split at h
-  · split at h
-    · cases h
-    · cases h
+  · simp only at h
+    split at h
+    · cases h; rfl
     · split at h
       · cases h
-      · cases h; simp [Move.isSetNonce]
+      · cases h; rfl
+      · split at h
+        · cases h; rfl
+        · cases h; simp [Move.isSetNonce]
   · cases h; rfl
 
 theorem successOutcome_ok (s : State) (t : TxIn) (r out : Outcome) (h : successOutcome s t r = .ok out) :
     ∃ burn, out.code = 0 ∧ r.moves.any Move.isSetNonce = false ∧ burn.any Move.isSetNonce = false ∧ out.moves = successMoves t r burn ∧
-    (successMoves t r burn).all (Move.debitOk t.sender t.issuer) = true := by
+    (successMoves t r burn).all (Move.debitOk t.sender t.issuer) = true ∧ freshIdsOk s (successMoves t r burn) = true := by
   unfold successOutcome at h
   split at h
   · cases h
@@ -89,8 +92,11 @@ theorem successOutcome_ok (s : State) (t : TxIn) (r out : Outcome) (h : successO
         split at h
         · cases h
         · next hn =>
-          cases h
-          exact ⟨burn, rfl, by simpa using hn, by simpa using hbn, rfl, by simpa using hd⟩
+          split at h
+          · cases h
+          · next hfr =>
+            cases h
+            exact ⟨burn, rfl, by simpa using hn, by simpa using hbn, rfl, by simpa using hd, by simpa using hfr⟩
 
 theorem failureOutcome_ok (P : Params) (o : Oracle) (s : State) (t : TxIn) (code : Nat) (out : Outcome)
     (h : failureOutcome P o s t code = .ok out) :
